@@ -767,6 +767,13 @@ class Interp(object):
             if isinstance(base, Tok):
                 return Tok('X') if base.c != 'E' else Tok('E')
             return Top('slice')
+        if isinstance(idx, Obj) and idx.cls == 'slice' and isinstance(base, (list, tuple, str, bytes)):
+            parts = [idx.fields.get('start'), idx.fields.get('stop'), idx.fields.get('step')]
+            if all(x is None or (isinstance(x, int) and not isinstance(x, bool)) for x in parts):
+                if parts[2] == 0:
+                    raise Raise('ValueError', node, self.where(node, frame))
+                return base[slice(*parts)]
+            return Top('slice')
         if isinstance(base, (list, tuple, str, bytes)) and isinstance(idx, int) and not isinstance(idx, bool):
             if -len(base) <= idx < len(base):
                 return base[idx]
@@ -782,7 +789,13 @@ class Interp(object):
         return Top('item')
 
     def ev_Lambda(self, e, frame):
-        return Top('lambda')
+        # a lambda is a nested function `def <lambda>(args): return body` closing over the current frame
+        fn = ast.FunctionDef(name='<lambda>', args=e.args, body=[ast.Return(value=e.body)], decorator_list=[], returns=None, type_comment=None)
+        ast.copy_location(fn, e)
+        ast.fix_missing_locations(fn)
+        fi = FuncInfo(frame.module, None, fn)
+        fi.closure = frame.locals
+        return FuncRef(fi)
 
     def ev_ListComp(self, e, frame):
         return self.comprehension(e, frame, list)
@@ -1169,6 +1182,8 @@ class Interp(object):
                             if args[1] in effects(init).written('self'):
                                 return True
                     return False
+            if isinstance(args[1], str) and (a0 is None or isinstance(a0, (bool, int, float, str, bytes, list, tuple, dict))):
+                return hasattr(a0, args[1])
             return Top('bool')
         if name == 'getattr':
             if isinstance(args[1], str):
@@ -1237,6 +1252,16 @@ class Interp(object):
         if name in ('sorted', 'reversed'):
             if isinstance(a0, (list, tuple)) and not _has_abstract(a0) and not kwargs:
                 return sorted(a0) if name == 'sorted' else list(reversed(a0))
+            if name == 'reversed' and isinstance(a0, (list, tuple)):
+                return list(reversed(a0))
+            if name == 'sorted' and isinstance(a0, (list, tuple)) and isinstance(kwargs.get('key'), FuncRef) and set(kwargs) <= {'key', 'reverse'}:
+                keys = [self.call_function(kwargs['key'].fi, [x], {}, node, frame) for x in a0]
+                if not _has_abstract(keys) and isinstance(kwargs.get('reverse', False), bool):
+                    try:
+                        order = sorted(range(len(a0)), key=lambda i: keys[i], reverse=kwargs.get('reverse', False))
+                    except TypeError:
+                        return Top('sorted')
+                    return [a0[i] for i in order]
             return Top(name)
         if name == 'iter':
             return Obj('iter', {'of': a0})
